@@ -3,16 +3,20 @@
    it knows about was rewritten behind its back. *)
 From Eupsv Require Import Base.Base Base.BaseLemmas Model.Db Model.Cache.
 From Eupsv Require Import Proofs.DbLib Proofs.Db Proofs.DbSim Proofs.DbInv Proofs.DbCor.
-From Eupsv Require Import Proofs.CacheLib Proofs.CacheWt Proofs.CacheRebuild Proofs.CacheEff Proofs.CacheInv.
+From Eupsv Require Import Proofs.CacheLib Proofs.CacheWt Proofs.CacheRebuild Proofs.CacheEff Proofs.CacheU Proofs.CacheInv.
 From Coq Require Import Lia.
 
-Definition ps_ok (w : world) (s : str) (ps : pstack) : Prop :=
-  lookup_agree ps (w_db w) s /\
+(* uo: whose tag directory the instance reads (nobody's for an administrator) *)
+Definition ps_ok (w : world) (uo : option str) (s : str) (ps : pstack) : Prop :=
+  lookup_agree ps (w_db w) s /\ ps_ugood ps (w_uc w) uo s /\
   (forall l f m p, glookup key_eqb (l, f) (ps_modtimes ps) = Some m -> pk_get w l s f = Some p -> pk_stamp p <= m).
+
+Lemma ugood_nil uc uo s f : ugood [] uc uo s f.
+Proof. intros n t. unfold fd_utag. cbn. destruct uo; [|reflexivity]. unfold vis_fd. destruct (uc_tag _ _ _ _ _ _); reflexivity. Qed.
 
 (* w' differs from w only in the clock and the cache files of stack s *)
 Definition same_but (s : str) (w w' : world) : Prop :=
-  w_db w' = w_db w /\ w_stamps w' = w_stamps w /\ w_clock w <= w_clock w' /\
+  w_db w' = w_db w /\ w_stamps w' = w_stamps w /\ w_clock w <= w_clock w' /\ w_uc w' = w_uc w /\
   (forall l s' f, s' <> s -> pk_get w' l s' f = pk_get w l s' f).
 
 Lemma same_but_refl s w : same_but s w w.
@@ -20,56 +24,65 @@ Proof. repeat split; auto. Qed.
 
 Lemma same_but_trans s w1 w2 w3 : same_but s w1 w2 -> same_but s w2 w3 -> same_but s w1 w3.
 Proof.
-  intros [A1 [A2 [A3 A4]]] [B1 [B2 [B3 B4]]]. repeat split; try congruence; try lia.
+  intros [A1 [A2 [A3 [A5 A4]]]] [B1 [B2 [B3 [B5 B4]]]]. repeat split; try congruence; try lia.
   intros. rewrite B4, A4; auto.
 Qed.
 
-Lemma ps_ok_frame s w w' s2 ps : same_but s w w' -> s2 <> s -> ps_ok w s2 ps -> ps_ok w' s2 ps.
+Lemma ps_ok_frame s w w' uo s2 ps : same_but s w w' -> s2 <> s -> ps_ok w uo s2 ps -> ps_ok w' uo s2 ps.
 Proof.
-  intros [E1 [_ [_ E2]]] N [A B]. split.
+  intros [E1 [_ [_ [E3 E2]]]] N [A [U B]]. split; [|split].
   - rewrite E1. exact A.
+  - rewrite E3. exact U.
   - intros l f m p H1 H2. rewrite E2 in H2 by exact N. exact (B l f m p H1 H2).
 Qed.
 
-Lemma in_sync_true w s ps loc fl : ps_ok w s ps -> in_sync w s ps loc fl = true.
+Lemma in_sync_true w uo s ps loc fl : ps_ok w uo s ps -> in_sync w s ps loc fl = true.
 Proof.
-  intros [_ B]. unfold in_sync. destruct (glookup key_eqb (loc, fl) (ps_modtimes ps)) as [m|] eqn:E1; [|reflexivity].
+  intros [_ [_ B]]. unfold in_sync. destruct (glookup key_eqb (loc, fl) (ps_modtimes ps)) as [m|] eqn:E1; [|reflexivity].
   destruct (pk_get w loc s fl) as [p|] eqn:E2; [|reflexivity]. apply Nat.leb_le. exact (B _ _ _ _ E1 E2).
 Qed.
 
-Lemma ensure_in_sync_id w s loc ps : ps_ok w s ps -> ensure_in_sync w s loc ps = ps.
+Lemma ensure_in_sync_id w uo s loc ps : ps_ok w uo s ps -> ensure_in_sync w s loc ps = ps.
 Proof.
   intro H. unfold ensure_in_sync.
   assert (E : forallb (in_sync w s ps loc) (akeys (ps_lookup ps)) = true).
-  { apply forallb_forall. intros fl _. apply in_sync_true. exact H. }
+  { apply forallb_forall. intros fl _. apply (in_sync_true _ uo). exact H. }
   rewrite E. reflexivity.
 Qed.
 
 (* ---------------------------------------------------------------- persist and save *)
 
 Lemma persist_ok tick w s loc fl ps w' ps' :
-  clock_strict tick -> INV w -> ps_ok w s ps ->
+  clock_strict tick -> INV w -> ps_ok w (owner loc) s ps ->
   (alookup fl (ps_lookup ps) = None -> agree [] (w_db w) s fl) ->
   persist tick w s loc fl ps = (w', ps') ->
-  INV w' /\ ps_ok w' s ps' /\ same_but s w w' /\
+  INV w' /\ ps_ok w' (owner loc) s ps' /\ same_but s w w' /\
   alookup fl (ps_lookup ps') <> None /\
   (forall f, alookup f (ps_lookup ps) <> None -> alookup f (ps_lookup ps') <> None) /\
   (forall f fd, alookup f (ps_lookup ps) = Some fd -> alookup f (ps_lookup ps') = Some fd) /\
   (exists p, pk_get w' loc s fl = Some p /\ w_clock w < pk_stamp p /\ agree (pk_data p) (w_db w') s fl).
 Proof.
-  intros CS I [A B] Hnew E. unfold persist in E. inversion E. clear E. subst w' ps'.
+  intros CS I [A [U B]] Hnew E. unfold persist in E. inversion E. clear E. subst w' ps'.
   pose proof (CS (w_clock w)) as Ht.
   set (data := match alookup fl (ps_lookup ps) with Some fd => fd | None => [] end).
   assert (AD : agree data (w_db w) s fl).
   { unfold data. destruct (alookup fl (ps_lookup ps)) as [fd|] eqn:Ef; [exact (A _ _ Ef)|apply Hnew; reflexivity]. }
+  assert (UD : ugood data (w_uc w) (owner loc) s fl).
+  { unfold data. destruct (alookup fl (ps_lookup ps)) as [fd|] eqn:Ef; [exact (U _ _ Ef)|apply ugood_nil]. }
   split; [|split; [|split; [|split; [|split; [|split]]]]].
-  - apply write_pickle_inv; assumption.
-  - split; cbn [w_db ps_lookup ps_modtimes].
+  - apply write_pickle_inv; try assumption.
+    intro n. apply (ugood_uagree_n data (w_db w) (w_uc w) (owner loc) s fl n (AD n)). apply UD.
+  - split; [|split]; cbn [w_db w_uc ps_lookup ps_modtimes].
     + destruct (alookup fl (ps_lookup ps)) as [fd0|] eqn:Ef; intros f fd H; cbn [ps_lookup] in H.
       * exact (A _ _ H).
       * rewrite alookup_aset in H. destruct (str_eqb_spec f fl) as [->|N].
         -- inversion H. subst fd. apply Hnew. reflexivity.
         -- exact (A _ _ H).
+    + destruct (alookup fl (ps_lookup ps)) as [fd0|] eqn:Ef; intros f fd H; cbn [ps_lookup] in H.
+      * exact (U _ _ H).
+      * rewrite alookup_aset in H. destruct (str_eqb_spec f fl) as [->|N].
+        -- inversion H. subst fd. apply ugood_nil.
+        -- exact (U _ _ H).
     + intros l f m p. rewrite (glookup_gset key_eqb key_eqb_eq). unfold pk_get. cbn [w_pickles]. rewrite pk_get_gset.
       destruct (key_eqb (l, f) (loc, fl)) eqn:Ek.
       * apply key_eqb_eq in Ek. inversion Ek. subst l f.
@@ -109,10 +122,10 @@ Proof.
 Qed.
 
 Lemma save_ok tick s loc fls : forall w ps w' ps' b,
-  clock_strict tick -> INV w -> ps_ok w s ps ->
+  clock_strict tick -> INV w -> ps_ok w (owner loc) s ps ->
   (forall f, In f fls -> alookup f (ps_lookup ps) = None -> agree [] (w_db w) s f) ->
   save tick w s loc fls ps = (w', ps', b) ->
-  INV w' /\ ps_ok w' s ps' /\ same_but s w w' /\
+  INV w' /\ ps_ok w' (owner loc) s ps' /\ same_but s w w' /\
   (forall f, In f fls -> alookup f (ps_lookup ps') <> None) /\
   (forall f, alookup f (ps_lookup ps) <> None -> alookup f (ps_lookup ps') <> None) /\
   (forall f fd, alookup f (ps_lookup ps) = Some fd -> alookup f (ps_lookup ps') = Some fd) /\
@@ -121,7 +134,7 @@ Proof.
   induction fls as [|fl r IH]; intros w ps w' ps' b CS I OK Hnew E; cbn [save] in E.
   - inversion E. subst. split; [exact I|]. split; [exact OK|]. split; [apply same_but_refl|].
     split; [intros f []|]. split; [auto|]. split; [auto|]. intros f [].
-  - rewrite (in_sync_true _ _ _ _ _ OK) in E.
+  - rewrite (in_sync_true _ _ _ _ _ _ OK) in E.
     destruct (persist tick w s loc fl ps) as [w1 ps1] eqn:Ep.
     destruct (persist_ok tick w s loc fl ps w1 ps1 CS I OK (Hnew fl (or_introl eq_refl)) Ep)
       as [I1 [OK1 [SB1 [K1 [K2 [K3 [p1 [G1 [G2 _]]]]]]]]].
@@ -173,37 +186,51 @@ Proof.
   - apply H.
 Qed.
 
-Lemma up_to_date_true w loc s fl : up_to_date w loc s fl = true ->
-  exists p, pk_get w loc s fl = Some p /\ newer_than w s (pk_stamp p) = false.
+Lemma up_to_date_true w loc s fl : up_to_date false w loc s fl = true ->
+  exists p, pk_get w loc s fl = Some p /\ newer_than w s (pk_stamp p) = false /\
+            (loc <> upsdb -> unewer_than w loc s (pk_stamp p) = false).
 Proof.
   unfold up_to_date. destruct (pk_get w loc s fl) as [p|]; [|discriminate].
-  intro H. exists p. split; [reflexivity|]. apply negb_true_iff. exact H.
+  intro H. apply andb_true_iff in H. destruct H as [H1 H2]. exists p. split; [reflexivity|]. split.
+  - apply negb_true_iff. exact H2.
+  - intro N. apply negb_true_iff in H1. cbn [negb andb] in H1.
+    destruct (str_eqb_spec loc upsdb); [contradiction|]. exact H1.
 Qed.
 
 Lemma try_cache_true w loc s fls ps ps' :
   INV w -> mt_ok w s ps -> ps_lookup ps = [] ->
-  try_cache w loc s fls ps = (ps', true) ->
-  ps_ok w s ps' /\ (forall f, In f fls -> alookup f (ps_lookup ps') <> None).
+  try_cache false w loc s fls ps = (ps', true) ->
+  ps_ok w (owner loc) s ps' /\ (forall f, In f fls -> alookup f (ps_lookup ps') <> None).
 Proof.
   intros I MT Nil E. unfold try_cache in E.
-  destruct (forallb (up_to_date w loc s) fls) eqn:U; [|discriminate].
+  destruct (forallb (up_to_date false w loc s) fls) eqn:U; [|discriminate].
   destruct (same_names (db_names (w_db w) s) (ps_names (reload w loc s fls ps))) eqn:SN; [|discriminate].
   inversion E. subst ps'. clear E. rewrite forallb_forall in U. rewrite same_names_true in SN.
-  split; [split|].
-  - intros f fd H. rewrite reload_lookup, Nil in H.
+  assert (Both : forall f fd, alookup f (ps_lookup (reload w loc s fls ps)) = Some fd -> forall n,
+            agree_n fd (w_db w) s f n /\ uagree_n fd (w_db w) (w_uc w) (owner loc) s f n).
+  { intros f fd H. rewrite reload_lookup, Nil in H.
     destruct (mem_str f fls) eqn:Mf; [|discriminate].
     destruct (pk_get w loc s f) as [p|] eqn:Ep; [|discriminate]. inversion H. subst fd.
     assert (Hf : In f fls) by (apply mem_str_In; exact Mf).
-    destruct (up_to_date_true _ _ _ _ (U f Hf)) as [p' [Ep' Nw]]. rewrite Ep in Ep'. inversion Ep'. subst p'.
-    intro n. destruct (inv_pk w I loc s f p Ep n) as [A|[[In1 Nw1]|[NI K]]].
+    destruct (up_to_date_true _ _ _ _ (U f Hf)) as [p' [Ep' [Nw UNw]]]. rewrite Ep in Ep'. inversion Ep'. subst p'.
+    intro n. destruct (inv_pk w I loc s f p Ep n) as [A|[[In1 [Nw1|[Nl Nw1]]]|[NI K]]].
     + exact A.
     + exfalso. unfold newer_than in Nw.
       assert (X : existsb (fun n0 => newer_n (w_db w) (w_stamps w) s n0 (pk_stamp p)) (db_names (w_db w) s) = true).
       { apply existsb_exists. exists n. split; assumption. }
       congruence.
+    + exfalso. specialize (UNw Nl). unfold unewer_than in UNw.
+      assert (X : existsb (fun n0 => unewer_n (w_uc w) (w_stamps w) loc s n0 (pk_stamp p)) (db_names (w_db w) s) = true).
+      { apply existsb_exists. exists n. split; [exact In1|]. unfold unewer_n. apply orb_true_iff. left.
+        apply Nat.ltb_lt. exact Nw1. }
+      congruence.
     + exfalso. apply NI. apply SN. unfold ps_names. apply in_flat_map. exists (f, pk_data p). split.
       * apply alookup_In. rewrite reload_lookup, Mf, Ep. reflexivity.
-      * cbn [snd]. apply alookup_not_None_In. exact K.
+      * cbn [snd]. apply alookup_not_None_In. exact K. }
+  split; [split; [|split]|].
+  - intros f fd H n. apply (Both f fd H n).
+  - intros f fd H n. destruct (Both f fd H n) as [A Ua].
+    apply (ugood_uagree_n fd (w_db w) (w_uc w) (owner loc) s f n A). exact Ua.
   - apply reload_mt. exact MT.
   - intros f Hf. rewrite reload_lookup. apply mem_str_In in Hf. rewrite Hf.
     assert (Hf' : In f fls) by (apply mem_str_In; exact Hf).
@@ -211,10 +238,10 @@ Proof.
 Qed.
 
 Lemma try_cache_false w loc s fls ps ps' :
-  mt_ok w s ps -> ps_lookup ps = [] -> try_cache w loc s fls ps = (ps', false) ->
+  mt_ok w s ps -> ps_lookup ps = [] -> try_cache false w loc s fls ps = (ps', false) ->
   mt_ok w s ps' /\ ps_lookup ps' = [].
 Proof.
-  intros MT Nil E. unfold try_cache in E. destruct (forallb (up_to_date w loc s) fls).
+  intros MT Nil E. unfold try_cache in E. destruct (forallb (up_to_date false w loc s) fls).
   - destruct (same_names _ _); [discriminate|]. inversion E. subst ps'. cbn [ps_modtimes ps_lookup].
     split; [|reflexivity]. apply reload_mt. exact MT.
   - inversion E. subst. auto.
@@ -222,33 +249,44 @@ Qed.
 
 (* ---------------------------------------------------------------- fromCache *)
 
-Lemma from_cache_ok tick w s loc nf w' ps :
-  clock_strict tick -> INV w -> from_cache tick w s loc nf = (w', ps) ->
-  INV w' /\ ps_ok w' s ps /\ same_but s w w' /\ (forall f, In f nf -> alookup f (ps_lookup ps) <> None).
+Lemma owner_upsdb : owner upsdb = None.
+Proof. unfold owner. rewrite str_eqb_refl. reflexivity. Qed.
+
+Lemma from_cache_ok tick w s loc utd nf w' ps :
+  clock_strict tick -> INV w -> utd = owner loc -> from_cache tick false w s loc utd nf = (w', ps) ->
+  INV w' /\ ps_ok w' utd s ps /\ same_but s w w' /\ (forall f, In f nf -> alookup f (ps_lookup ps) <> None).
 Proof.
-  intros CS I E. unfold from_cache in E.
+  intros CS I Hutd E. unfold from_cache in E.
   assert (MT0 : mt_ok w s ps_empty) by (intros l f m p H; discriminate).
-  destruct (try_cache w loc s nf ps_empty) as [ps1 [|]] eqn:T1.
+  destruct (try_cache false w loc s nf ps_empty) as [ps1 [|]] eqn:T1.
   - inversion E. subst. destruct (try_cache_true _ _ _ _ _ _ I MT0 eq_refl T1) as [H1 H2].
     split; [exact I|]. split; [exact H1|]. split; [apply same_but_refl|exact H2].
   - destruct (try_cache_false _ _ _ _ _ _ MT0 eq_refl T1) as [MT1 Nil1].
-    destruct (try_cache w upsdb s nf ps1) as [ps2 [|]] eqn:T2.
-    + inversion E. subst. destruct (try_cache_true _ _ _ _ _ _ I MT1 Nil1 T2) as [H1 H2].
-      split; [exact I|]. split; [exact H1|]. split; [apply same_but_refl|exact H2].
+    destruct (try_cache false w upsdb s nf ps1) as [ps2 [|]] eqn:T2.
+    + inversion E. subst w' ps. clear E. destruct (try_cache_true _ _ _ _ _ _ I MT1 Nil1 T2) as [[H1 [H1u H1m]] H2].
+      rewrite owner_upsdb in H1u.
+      destruct (load_user_tags_ok (w_db w) (w_uc w) utd s ps2 H1 H1u) as [L1 [L2 [L3 L4]]].
+      split; [exact I|]. split; [|split; [apply same_but_refl|]].
+      * split; [exact L1|]. split; [exact L2|]. rewrite L3. exact H1m.
+      * intros f Hf N. apply (H2 f Hf). apply L4. exact N.
     + destruct (try_cache_false _ _ _ _ _ _ MT1 Nil1 T2) as [MT2 _].
-      destruct (save tick w s loc (uniq (akeys (rebuild_lookup (w_db w) s) ++ nf))
-                  (mkPS (rebuild_lookup (w_db w) s) (ps_modtimes ps2))) as [[w3 ps3] b] eqn:Es.
+      destruct (save tick w s loc (uniq (akeys (rebuild_lookup (w_db w) (w_uc w) utd s) ++ nf))
+                  (mkPS (rebuild_lookup (w_db w) (w_uc w) utd s) (ps_modtimes ps2))) as [[w3 ps3] b] eqn:Es.
       inversion E. subst w' ps. clear E.
-      assert (OK0 : ps_ok w s (mkPS (rebuild_lookup (w_db w) s) (ps_modtimes ps2))).
-      { split; [|exact MT2]. intros f fd H. cbn [ps_lookup] in H. rewrite rebuild_lookup_lookup in H.
-        destruct (mem_str f (db_flavors (w_db w) s)); inversion H. apply rebuild_agree. apply (inv_nd w I). }
-      assert (Hnew : forall f, In f (uniq (akeys (rebuild_lookup (w_db w) s) ++ nf)) ->
-                alookup f (ps_lookup (mkPS (rebuild_lookup (w_db w) s) (ps_modtimes ps2))) = None ->
+      assert (OK0 : ps_ok w (owner loc) s (mkPS (rebuild_lookup (w_db w) (w_uc w) utd s) (ps_modtimes ps2))).
+      { split; [|split; [|exact MT2]]; intros f fd H; cbn [ps_lookup] in H; rewrite rebuild_lookup_lookup in H;
+          destruct (mem_str f (db_flavors (w_db w) s)); inversion H.
+        - apply rebuild_agree. apply (inv_nd w I).
+        - rewrite <- Hutd. intro n.
+          apply (ugood_uagree_n _ (w_db w) (w_uc w) utd s f n (rebuild_agree (w_db w) (w_uc w) utd s f (inv_nd w I) n)).
+          apply rebuild_uagree. }
+      assert (Hnew : forall f, In f (uniq (akeys (rebuild_lookup (w_db w) (w_uc w) utd s) ++ nf)) ->
+                alookup f (ps_lookup (mkPS (rebuild_lookup (w_db w) (w_uc w) utd s) (ps_modtimes ps2))) = None ->
                 agree [] (w_db w) s f).
       { intros f _ H. cbn [ps_lookup] in H. rewrite rebuild_lookup_lookup in H.
         destruct (mem_str f (db_flavors (w_db w) s)) eqn:M; [discriminate|].
         apply empty_agree; [apply (inv_nd w I)|]. apply mem_str_not_In. exact M. }
       destruct (save_ok tick s loc _ _ _ _ _ _ CS I OK0 Hnew Es) as [I3 [OK3 [SB3 [L1 _]]]].
-      split; [exact I3|]. split; [exact OK3|]. split; [exact SB3|].
+      split; [exact I3|]. split; [rewrite Hutd; exact OK3|]. split; [exact SB3|].
       intros f Hf. apply L1. apply uniq_In. apply in_or_app. right. exact Hf.
 Qed.
